@@ -31,6 +31,7 @@ IndInv ==
   /\ cpeers \subseteq AllPeers /\ file \subseteq AllPeers /\ seen \subseteq AllPeers
   /\ Len(pend) <= 1 /\ \A i \in DOMAIN pend : pend[i] \subseteq AllPeers
   /\ CountInv
+  /\ phase = "votes" => roundVoters \subseteq cpeers     \* (the configuration does not change inside a round: Reload leaves it)
   /\ phase = "follower" => (leader \in cpeers /\ leader \in announced)
 
 IndInit ==
